@@ -9,7 +9,10 @@ LOG_LEVEL_INVARIANT = True      # (harness/vp.py: a sample of the cases again wi
 RUN_MODULE = "RunC05"
 RULE = ("one case = recorded operations (faults, discards, sampling outcomes, ordinary and interrupt-style terminations at "
         "random steps incl. inside intercepted bodies) each followed by a replay of what was saved on the unchanged "
-        "program; non-trivial = at least one interception or fault; distinct = distinct history")
+        "program; histories of three operations of one process whose intercepted inputs get equal-but-differently-typed "
+        "arguments (1 / True / 1.0, 0 / False / 0.0, pairs of them; same or different functions; every order), saved to a "
+        "file cassette and replayed in the recording process AND in another interpreter (also the last replay of ten of the "
+        "random histories); non-trivial = at least one interception or fault; distinct = distinct history")
 ASSUMPTIONS = ["a cassette whose create_new_recording / abort_recording raise is outside the tolerated fault list",
                "threads: as for C04 - the methods that touch the active recording are modelled access by access "
                "(Recorder/Threads.v), any number of threads, any schedule, a locked region is one step; the program-level "
@@ -58,6 +61,44 @@ def stale_state_history(rng):
             dict(kind="play", target=1, pf={"kind": "op", "op": rd.clean(opb)}, enabled=False)]
 
 
+def _lit(t, v):
+    return {"t": "float", "r": repr(float(v))} if t == "float" else {"t": t, "v": {"int": int, "bool": bool}[t](v)}
+
+
+# argument tuples that Python considers equal (and hashes alike) although they are different values with different
+# encodings: 1 == True == 1.0, 0 == False == 0.0
+EQUAL_GROUPS = [[[("int", 1)], [("bool", 1)], [("float", 1)]],
+                [[("int", 0)], [("bool", 0)], [("float", 0)]],
+                [[("int", 1), ("int", 0)], [("bool", 1), ("bool", 0)], [("float", 1), ("int", 0)]],
+                [[("int", 1), ("bool", 0)], [("float", 1), ("float", 0)], [("bool", 1), ("int", 0)]]]
+
+
+def equal_arguments_history(rng, k):
+    """A long-lived recording process: 3 operations in ONE interpreter call intercepted inputs (the same function or three
+    different ones) with argument tuples that are equal in Python's eyes but differently typed; every recording is saved to
+    a FILE cassette and replayed on the unchanged program twice: in the recording process and in ANOTHER interpreter (as the
+    studio does).  The key of a call is a function of the call, not of what the process intercepted earlier."""
+    group = EQUAL_GROUPS[k % len(EQUAL_GROUPS)]
+    order = [[0, 1, 2], [1, 2, 0], [2, 0, 1], [0, 2, 1], [1, 0, 2], [2, 1, 0]][(k // len(EQUAL_GROUPS)) % 6]
+    same_alias = (k // 3) % 2 == 0
+    static = k % 2 == 0
+    runs = []
+    for n, j in enumerate(order):
+        alias = "load" if same_alias else ["load", "get_user", "db.fetch"][n]
+        cfg = dict(alias=alias, resolver={"kind": "none"}, cap=None, static=static, property=False, handler="none",
+                   prep_discards=False, run_missing=False, vmiss={"kind": "none"}, fallbacks={"kind": "none"})
+        body = {"k": "in", "cfg": cfg, "body": {"k": "ret", "e": {"lit": {"t": "int", "v": 10 + j}}},
+                "args": [{"lit": _lit(t, v)} for t, v in group[j]], "kwargs": [],
+                "next": {"k": "out", "cfg": dict(alias="send", static=True, handler="none", fail=True, default={"t": "none"}),
+                         "body": {"k": "ret", "e": {"lit": {"t": "none"}}}, "args": [{"var": 0}], "kwargs": [],
+                         "next": {"k": "ret", "e": {"var": 0}}}}
+        op = dict(cls=["OpA", "OpB", "Op_C"][n] if k % 4 == 3 else "OpA", classlevel=False, extractor={"kind": "none"}, body=body)
+        runs.append(dict(kind="record", enabled=True, prm=dict(rate=[1, 1], ignore=False, skipped=False, copy=False), op=op,
+                         save_fails=False))
+        runs.append(dict(kind="play", target=n, pf={"kind": "op", "op": rd.clean(op)}, enabled=False, fresh_process=True))
+    return dict(interrupt_kind="custom", draws=[], runs=runs, cassette="file", stream="equal-arguments-other-interpreter")
+
+
 def to_gallina(case, obs):     # noqa: F811
     if rc.is_race(case):
         return rc.to_gallina(case, obs)
@@ -77,7 +118,14 @@ _hist_features, _hist_nontrivial = features, nontrivial     # (from rec_common)
 
 
 def features(case):      # noqa: F811
-    return rc.features(case) if rc.is_race(case) else _hist_features(case)
+    if rc.is_race(case):
+        return rc.features(case)
+    fs = _hist_features(case)
+    if case.get("stream"):
+        fs.add("stream:" + case["stream"])
+    if any(r.get("fresh_process") for r in case["runs"]):
+        fs.add("saved-recording-replayed-in-another-interpreter")
+    return fs
 
 
 def nontrivial(case):    # noqa: F811
@@ -107,6 +155,18 @@ def generate(rng, tier):
             runs.append(dict(kind="play", target=nrec, pf={"kind": "op", "op": rd.clean(op)}, enabled=rng.random() < 0.5))
             nrec += 1
         cases.append(dict(interrupt_kind=rng.choice(INTERRUPT_KINDS), draws=rd.rand_draws(rng, 12), runs=runs, cassette="memory"))
+    # replays in ANOTHER interpreter: equal-but-differently-typed arguments across the operations of one process (every order
+    # of the three variants: 8 histories x 3 replays in the quick tier), and the last replay of some of the random histories
+    for k in range(8 if tier == "quick" else 48):
+        cases.append(equal_arguments_history(rng, k))
+    done = 0
+    for c in cases:
+        if done >= (10 if tier == "quick" else 60):
+            break
+        if not rc.is_race(c) and c.get("cassette") == "memory" and c["runs"][-1]["kind"] == "play" and not c.get("stream"):
+            c["cassette"] = "file"
+            c["runs"][-1]["fresh_process"] = True
+            done += 1
     return cases
 
 
@@ -162,6 +222,19 @@ def direct(case, obs):
                 if plain and incomplete is False and ob["outcome"] == {"o": "exn", "e": "KeyMissing"}:
                     fails.append(("saved-recording-misses-a-key", "run %d: a saved, complete recording replayed on the "
                                   "unchanged program raised RecordingKeyError" % i))
+                fr = ob.get("fresh")
+                if fr is not None and "skipped" not in fr:
+                    if "error" in fr:
+                        fails.append(("replay-in-another-interpreter-failed", "run %d: %s" % (i, fr["error"])))
+                    elif plain and incomplete is False and fr["outcome"] == {"o": "exn", "e": "KeyMissing"}:
+                        fails.append(("key-missing-in-another-interpreter", "run %d: a saved, complete "
+                                      "recording (keys: %s) replayed on the unchanged program in a fresh interpreter raised "
+                                      "RecordingKeyError%s" % (i, [k for k, _ in sv["data"] if k.startswith("input: ")][:3],
+                                                               "" if ob["outcome"] == fr["outcome"] else
+                                                               " (the replay inside the recording process gave %s)" % ob["outcome"])))
+                    elif plain and incomplete is False and fr["outcome"] != ob["outcome"]:
+                        fails.append(("replay-differs-in-another-interpreter", "run %d: replay in the recording process gave "
+                                      "%s, in a fresh interpreter %s" % (i, ob["outcome"], fr["outcome"])))
     return fails
 
 
@@ -226,7 +299,8 @@ MANIFEST = dict(
          "capture failure, a 'keep' decision and a snapshot holding every write of the run. Model tied to /repo by running "
          "fault-laden programs with all termination modes on a real TapeRecorder with a spy cassette and comparing the "
          "cassette call sequence and saved snapshots; direct predicate counts finalisations per created recording and "
-         "replays every saved, complete recording on the unchanged program (no missing-key error). Racing threads "
+         "replays every saved, complete recording on the unchanged program (no missing-key error) - in the recording process "
+         "and, for file-cassette histories incl. equal-but-differently-typed key arguments, in a fresh interpreter. Racing threads "
          "(Recorder/Threads.v, any number of threads, any schedule): the recording is handed to the cassette at most once "
          "at every moment and exactly once when it is gone and every thread is between calls "
          "(C05_finalised_exactly_once_under_any_interleaving; the code before /repo 359c201 refuted by C05_legacy_refuted); "
